@@ -6,6 +6,7 @@
 #![cfg_attr(docsrs, feature(doc_cfg))]
 // not bumping the MSRV for collapsible_if
 #![allow(clippy::collapsible_if)]
+#![allow(unexpected_cfgs)]
 
 pub mod emf;
 pub mod flex;
